@@ -207,7 +207,10 @@ def run_tucker(A, rank, stoptol, maxiters, dimorder, init, seed):
         return out
 
     state = np.random.get_state()
-    TA.np = _Attr(orig_np, random=_Attr(orig_np.random, uniform=uniform))
+    # every spelling of a unit variate of the global stream is the same draw to the property (lib.unit_spellings)
+    unit = lambda size=None: uniform(0.0, 1.0, size)  # noqa: E731
+    TA.np = _Attr(orig_np, random=_Attr(orig_np.random, uniform=uniform, random_sample=unit, random=unit, ranf=unit, sample=unit,
+                                        rand=(lambda *dims: uniform(0.0, 1.0, (dims if dims else None)))))
     ttb.tensor.nvecs = nvecs
     try:
         if seed is not None:
